@@ -163,7 +163,41 @@ func c08R3(c *engine.Ctx) {
 		}
 		// yield argument of the newMessageID call on this path
 		for _, call := range engine.CallsTo(nn, false, "proto.newMessageID") {
-			if k, ok := engine.ConstInt(res.Resolve(call.Common().Args[1])); ok {
+			yv := res.Resolve(call.Common().Args[1])
+			if k, ok := engine.ConstInt(yv); ok {
+				yields[t] = k
+				continue
+			}
+			// the table may live in a helper of the package that is handed the type
+			hc := engine.CallOf(yv)
+			if hc == nil {
+				continue
+			}
+			h := hc.Common().StaticCallee()
+			if h == nil || h.Pkg != nn.Pkg || len(h.Blocks) == 0 {
+				continue
+			}
+			pi := -1
+			for i, a := range hc.Common().Args {
+				if engine.Unwrap(a) == ssa.Value(nn.Params[1]) && i < len(h.Params) {
+					pi = i
+				}
+			}
+			if pi < 0 {
+				continue
+			}
+			hres, herr := engine.AbstractRun(h, func(x, y ssa.Value) (int, bool) {
+				if x == ssa.Value(h.Params[pi]) {
+					if k, ok := engine.ConstInt(y); ok {
+						return cmp64(t, k), true
+					}
+				}
+				return 0, false
+			})
+			if herr != nil {
+				continue
+			}
+			if k, ok := engine.ConstInt(hres.Resolve(engine.RetValOnPath(hres, 0))); ok {
 				yields[t] = k
 			}
 		}
@@ -233,7 +267,9 @@ func c08R4(c *engine.Ctx) {
 		n++
 		c.Check(ls[i]["p:c.reqMux"], "C08.R4", "nextMsgSeq/locked#"+ordinal(fn, i), i.Pos(), "message id and content counter must be drawn under reqMux")
 	})
-	c.Floor("C08.R4", 4, n)
+	// the id draw, at least one read and the write of the counter (a function
+	// that reads the counter once into a local has three such sites, not four)
+	c.Floor("C08.R4", 3, n)
 	isN := func(v ssa.Value) bool {
 		u, ok := v.(*ssa.UnOp)
 		return ok && u.Op == token.MUL && engine.Describe(u.X) == "p:c.sentContentMessages"
